@@ -95,12 +95,6 @@ fn c09_t_read_rw3_k2() {
 }}
 vharness! {
 #[kani::unwind(7)]
-fn c09_t_write_rw3_k2() {
-	let c = RetryingLockCollection::new(<[RW; 3] as Make<3>>::make([0; 3]));
-	t_retry_write::<[RW; 3], 3>(&c, 2);
-}}
-vharness! {
-#[kani::unwind(7)]
 fn c09_t_write_m4_k1() {
 	let c = RetryingLockCollection::new(<[M; 4] as Make<4>>::make([0; 4]));
 	t_retry_write::<[M; 4], 4>(&c, 1);
